@@ -2709,7 +2709,22 @@ class BaseInterpreter(Generic[TContext, TEvent]):
             return parent
 
         # The LCCA is the deepest common ancestor.
-        return max(common_ancestors, key=lambda n: n.depth)
+        lcca = max(common_ancestors, key=lambda n: n.depth)
+
+        # 🕰️ A history child of a parallel state is not one of its regions:
+        #    it stands for the whole parallel configuration. Targeting it from
+        #    inside that state must therefore exit and re-enter the parallel
+        #    state itself. With the parallel state as the domain, the exit set
+        #    was scoped to the history node's (empty) "region", nothing was
+        #    exited, and the restored states were entered on top of the active
+        #    ones — two active children in one compound state.
+        if (
+            lcca.type == "parallel"
+            and target_state.type == "history"
+            and target_state.parent is lcca
+        ):
+            return lcca.parent
+        return lcca
 
     @staticmethod
     def _get_path_to_state(
